@@ -5,11 +5,14 @@ CONSTANTS
   Ns = {2}
   Fault = "none"
   Alphabet = {1, 2, 3, 4, 5, 8, 12, 20, 40, 100, 400, 2000}
-  MaxLen = 5
+  MaxLen = 6
   ShapeSet = "thorough"
   StartRule = "argmax"
 INVARIANT SpectralOrder
 INVARIANT VarexpDescending
 INVARIANT VarexpNormalised
 INVARIANT BoundDefined
+INVARIANT LocSound
+INVARIANT SlicesCover
+INVARIANT MtShapeClasses
 CONSTRAINT Emit
